@@ -101,6 +101,12 @@ fn main() {
             let count: usize = arg(&args, "--count", "100").parse().unwrap();
             attrcase::run_random(seed, count, &mut out);
         }
+        "attr-map" => {
+            let seed: u64 = arg(&args, "--seed", "1").parse().unwrap();
+            let episodes: usize = arg(&args, "--episodes", "50").parse().unwrap();
+            let steps: usize = arg(&args, "--steps", "40").parse().unwrap();
+            attrcase::run_map(seed, episodes, steps, &mut out);
+        }
         "attr-foreign" => {
             let stdin = std::io::stdin();
             attrcase::run_foreign(&mut stdin.lock(), &mut out);
